@@ -15,9 +15,14 @@ TIE = 'correspondence (build_lookup / encode_rows / retarget / change evaluated 
 ASSUMPTIONS = ['str inputs are limited to latin-1 characters (code points 0..255); a non-ASCII character in a str raises '
                'UnicodeEncodeError, which the check counts as an encoding error',
                'alphabets are ASCII (all predefined ones are); NumPy fancy assignment with repeated indices keeps the last value']
-PARTIAL = ['C06_lookup_pinned_partial / C06_encode_pinned_partial: the code at HEAD (alphabet+32 table) is exact only for '
-           'characters that are not (non-letter member)+32',
-           'C06_retarget_pinned_partial: the HEAD re-target rule is sound only when both alphabets agree at the largest code present']
+PARTIAL = ['C06_lookup_pinned_partial, C06_encode_rows_pinned_partial, C06_change_encoding_pinned_partial: the code at HEAD '
+           '(alphabet+32 table) is exact only for characters that are not (non-letter member)+32; the full statements '
+           '(C06_lookup_exact, C06_encode_exact, C06_encode_rows_exact, C06_change_encoding_text) are proved for the '
+           'repaired table of notes/C06.fix-1.diff',
+           'C06_retarget_pinned_partial: the HEAD re-target rule is sound only when both alphabets agree at the largest code '
+           'present; C06_retarget_sound is proved for the repaired rule of notes/C06.fix-2.diff',
+           'EncodingError.offset is compared with the model (model_ok) but is not part of spec_ok',
+           'KmerEncoding / StringEncoding (anchored files kmer_encodings.py, string_encodings.py) are not modelled']
 PER_FILE = 64
 
 # name in bionumpy.encodings.alphabet_encoding -> constructor string (alphabet_encoding.py:105-125)
@@ -202,7 +207,7 @@ def _result(r, want_flat, dst, enc_obj):
             text = [r.to_string()]
             t2 = [''.join(chr(int(c)) for c in r.encoding.decode(r).raw())]
         except Exception as ex:
-            return dict(err='other', name='decode:' + type(ex).__name__)
+            return dict(err='undec', name='decode:' + type(ex).__name__)
     else:
         if not isinstance(r, EncodedRaggedArray):
             return dict(err='other', name='type:' + type(r).__name__)
@@ -214,7 +219,7 @@ def _result(r, want_flat, dst, enc_obj):
             text = r.tolist()
             t2 = r.encoding.decode(r).tolist()
         except Exception as ex:
-            return dict(err='other', name='decode:' + type(ex).__name__)
+            return dict(err='undec', name='decode:' + type(ex).__name__)
     if text != t2:
         return dict(err='other', name='to_string and enc.decode disagree')
     return dict(codes=codes, text=[t.encode('latin1').hex() for t in text], same_enc=bool(r.encoding == enc_obj))
@@ -295,7 +300,7 @@ def _cout(o):
                                 clist([hx(bytes.fromhex(t)) for t in o['text']], 'list Z'))
     if o.get('err') == 'enc':
         return '(OEncErr %s)' % cz(o['offset'])
-    return {'exc': 'OEncExc', 'unicode': 'OUnicode'}.get(o.get('err'), 'OOther')
+    return {'exc': 'OEncExc', 'unicode': 'OUnicode', 'undec': 'OUndec'}.get(o.get('err'), 'OOther')
 
 
 def to_coq(case, o):
